@@ -570,6 +570,8 @@ build_request(const struct casedef *c, uint64_t idx, struct built *b) {
   for (int i = 0; i < c->tkl; i++)
     b->token[i] = (uint8_t)(0xA0 + i);
   b->mid = 0x1000 + (int)(idx % 0xE000u);
+  if (c->prior)
+    b->mid = idx & 1 ? 0x0000 : 0xFFFF; /* the third space also carries the two ends of the message id range */
   const struct path_alt *pa = &paths[c->path];
   for (int s = 0; s < pa->nseg; s++) {
     q->opt[q->nopt].num = RS_O_URI_PATH;
